@@ -336,6 +336,14 @@ theorem appendRef_good (s : AState) (h : s.Ok) (i : Nat) :
   | none => simp [Good, obsA]
   | some x => exact append_good s h x
 
+theorem appendSub_good (s : AState) (h : s.Ok) (i n : Nat) :
+    Good (s.appendSub i n) (if i + n ≤ s.elems.length then Spec.const (s.elems ++ (s.elems.drop i).take n) else none) := by
+  unfold appendSub
+  rw [size_eq]
+  by_cases c : i + n ≤ s.elems.length
+  · simp only [c, if_true]; exact appendAll_good s h _
+  · simp [c, Good, obsA]
+
 theorem resizeRef_good (s : AState) (h : s.Ok) (n i : Nat) :
     Good (s.resizeRef n i) (match s.elems[i]? with
       | some x => Spec.resize s.elems n x
